@@ -103,7 +103,7 @@ func c03Judge(rep *verifReport, cs *c03Case, path string, start, end int64, endU
 }
 
 func TestVerifC03(t *testing.T) {
-	rep := newVerifReport("C03", "duration strings (everything time.ParseDuration accepts incl. negative, zero, sub-second, >24h, +-2^63ns neighbours, concatenations; and malformed) x credential ages (cookie iat now/-1h/-8h/-15h59m, client-cert NotBefore ages, basic-auth, IP cert) x issuing path (certgen ssh/x509/kubernetes, automation mint, automation refresh, cloud role); validity fields decoded from every returned certificate and bounded with harness-bracketed time; class = (path, cert type, duration class, credential age, outcome)")
+	rep := newVerifReport("C03", "duration strings (everything time.ParseDuration accepts incl. negative, zero, sub-second, >24h, +-2^63ns neighbours, concatenations; and malformed) x credential ages (cookie iat now/-1h/-8h/-15h59m, aged sessions stepped up with a hardware token just now, client-cert NotBefore ages, basic-auth, IP cert) x issuing path (certgen ssh/x509/kubernetes, automation mint, automation refresh, cloud role); validity fields decoded from every returned certificate and bounded with harness-bracketed time; class = (path, cert type, duration class, credential age, outcome)")
 	defer rep.Finish()
 	rng := verifRand("c03")
 	verifInstallFakeSTS()
@@ -133,6 +133,36 @@ func TestVerifC03(t *testing.T) {
 		creds = append(creds, cred{fmt.Sprintf("cookie-age-%s", age), iat, func(q *verifReq) {
 			q.Cookies = map[string]string{"auth_cookie": tok}
 		}})
+	}
+	// a session that was authenticated long ago and then stepped up with a second factor just now: the session's
+	// authentication time is still the original one
+	{
+		ck0, _ := verifLogin(env, "alice", "alice-pw-1")
+		tok := newVerifU2FToken()
+		if err := verifEnrollU2F(env, ck0, "alice", tok); err != nil {
+			rep.Inconc("U2F enrolment for the step-up credential failed: %v", err)
+		} else {
+			for _, age := range []time.Duration{8 * time.Hour, 15*time.Hour + 30*time.Minute} {
+				iat := now.Add(-age)
+				old := verifMint(verifSessionClaims("alice", verifBit["password"], iat, 16*time.Hour), ca)
+				req, _ := verifU2FBegin(env, old)
+				if req == nil {
+					rep.Inconc("U2F sign request with the aged session failed")
+					continue
+				}
+				r := verifU2FFinish(env, old, tok.SignResponse(req.AppID, req.Challenge))
+				c := r.Cookie("auth_cookie")
+				if r.Code != 200 || c == nil || c.Value == "" {
+					rep.Inconc("U2F step-up of the aged session failed: %d", r.Code)
+					continue
+				}
+				up := c.Value
+				rep.Count("stepped_up_credentials", 1)
+				creds = append(creds, cred{fmt.Sprintf("cookie-age-%s-then-u2f-step-up", age), iat, func(q *verifReq) {
+					q.Cookies = map[string]string{"auth_cookie": up}
+				}})
+			}
+		}
 	}
 	creds = append(creds, cred{"basic", time.Time{}, func(q *verifReq) { q.UseBasic = true; q.BasicUser = "alice"; q.BasicPass = "alice-pw-1" }})
 	for _, age := range []time.Duration{time.Minute, 12 * time.Hour, 23*time.Hour + 58*time.Minute} {
@@ -331,6 +361,7 @@ func TestVerifC03(t *testing.T) {
 	rep.Floor("decoded_ssh", 50)
 	rep.Floor("decoded_x509", 50)
 	rep.Floor("decoded_role", 1)
+	rep.Floor("stepped_up_credentials", 2)
 	rep.Floor("decoded_refresh", 1)
 	rep.Floor("decoded_cloud", 3)
 	rep.Floor("dur_<=24h_issued", 10)
